@@ -2,24 +2,18 @@
 import json, os
 from vlib import *
 
-RULE = ("api: names (fixed list incl. 'My Image', 'A/B', 'A#20', '#', '()<>[]{}/%#', trailing/leading space, empty, controls, non-ASCII; every ASCII char "
-        "inside a name; seeded random regular and irregular names) through Page::add_image+draw_image and Page::add_form_xobject, document written "
+RULE = ("api: names (fixed list incl. 'My Image', 'A/B', 'A#20', '#', '()<>[]{}/%#', trailing/leading space, empty, controls, non-ASCII incl. 'é中1' and the chars U+07FF U+0800 U+D7FF U+E000 U+FFFF U+10000 U+10FFFF; every ASCII char "
+        "inside a name; seeded random regular and irregular names; random names with 2-, 3- and 4-byte UTF-8 sequences (classes utf8_Nbyte)) through Page::add_image+draw_image and Page::add_form_xobject, document written "
         "with Document::to_bytes and re-opened with PdfReader/PdfDocument; outcome = reads back with the SAME String as XObject key (and Do operand) "
         "/ rejected by the API / broken. "
-        "pages: 2-4 page documents reusing the SAME name (regular, or for images any ASCII name incl. white space/delimiters/'#') on several pages for DIFFERENT resources (images of equal size with other pixels, "
+        "pages: 2-4 page documents reusing the SAME name (regular, non-ASCII (every second block of six documents, classes ..._utf8name), or for images any ASCII name incl. white space/delimiters/'#') on several pages for DIFFERENT resources (images of equal size with other pixels, "
         "other sizes, form XObjects, image/form alternating, two names exchanged): per page the decoded stream the name resolves to must be the one "
         "registered on that page (judged in Coq). non-trivial = name longer than one byte (api), a name shared by >= 2 pages (pages); distinct by case text")
 
 def classify(case, code):
-    """known class (what is left of the name finding after fix_name_escape): a name with a byte >= 0x80 —
-    the READER returns its resource-dictionary key as one char per byte, so it does not equal the name —
-    and the model predicts exactly the observed outcome (bit 1 clear).  Names made of ASCII only (white
-    space, delimiters, '#', controls) are never classified: they must read back."""
-    if not case or code < 0 or (code & 1) or "pages" in case:
-        return None
-    name = bytes.fromhex(case.get("name", ""))
-    if case.get("entry") in ("image", "form") and any(b >= 0x80 for b in name):
-        return "C30-name-nonascii"
+    """no open class: C30-name-raw (fix_name_escape) and C30-name-nonascii (fix_name_utf8: the reader decodes
+    name bytes as UTF-8 when valid) are both fixed, so EVERY name that is accepted and does not read back with
+    the same String as XObject key and Do operand is a violation"""
     return None
 
 
